@@ -15,7 +15,7 @@ PROP = {
             "compared in isolation. non-trivial = more than one event or a scanner case with an escape/paste/firing path; "
             "distinct = distinct input line. group filter-history: probe, a real session ending in {none, success download (real tsz), "
             "success upload (real trz), server fail, client fail, client fail before the session is taken, ctrl-C stop with an old "
-            "server, stop-and-delete API, stop prompt answered, stop prompt left open while the server fails (known finding), refused upload / download (chooser stand-in answers Cancel), garbage instead of "
+            "server, stop-and-delete API, stop prompt answered, stop prompt left open while the server fails (fixed by 0263b73: must pass), refused upload / download (chooser stand-in answers Cancel), garbage instead of "
             "CFG, CR-LF junk then 20 s timeout}, probe again in both directions. group filter-exit: the trzsz binary built from the "
             "repo around sh -c 'exit N' for N in {0,1,2,7,42,126,127,128,200,255} with several option flags, and 48 runs of a command "
             "that prints immediately before exiting.",
@@ -30,7 +30,7 @@ PROP = {
     "assumptions": [
         "C06_silent: a trigger detector that does not fire returns the chunk unchanged",
         "each read of the pumps is at most 32 KiB (one chunk = one Read)",
-        "a history 'has come to rest' when no handleTrzsz / uploadDragFiles / stop-prompt goroutine is alive, no zmodem session is "
+        "a history 'has come to rest' when no handleTrzsz / uploadDragFiles goroutine is alive, no zmodem session is "
         "referenced (C19), nothing is held back and no echo suppression is pending; C05_skip_pending covers the last one",
     ],
 }
